@@ -104,6 +104,7 @@ type driver struct {
 	t0      time.Time
 	scratch string
 	mu      sync.Mutex
+	buildMu sync.Mutex
 	agg     aggregate
 }
 
@@ -213,13 +214,33 @@ func (d *driver) run() int {
 	d.agg = aggregate{nontrivial: map[uint64]struct{}{}, counters: map[string]int64{}, known: map[string]int{}, side: map[string]int{}, raceDistinct: map[string]string{}}
 	kf := loadKnown()
 
+	// background runs (workloads that mostly wait on the real clock) go on beside the others
+	var bg sync.WaitGroup
 	for ri := range d.spec.runs {
 		r := &d.spec.runs[ri]
+		if !r.background {
+			continue
+		}
+		bg.Add(1)
+		go func(ri int, r *runSpec) {
+			defer bg.Done()
+			if err := d.runOne(ri, r, kf); err != nil {
+				fmt.Fprintf(os.Stderr, "vcheck: %v\n", err)
+				d.addInconclusive(err.Error())
+			}
+		}(ri, r)
+	}
+	for ri := range d.spec.runs {
+		r := &d.spec.runs[ri]
+		if r.background {
+			continue
+		}
 		if err := d.runOne(ri, r, kf); err != nil {
 			fmt.Fprintf(os.Stderr, "vcheck: %v\n", err)
-			d.agg.inconclusive = append(d.agg.inconclusive, err.Error())
+			d.addInconclusive(err.Error())
 		}
 	}
+	bg.Wait()
 	return d.finish(kf)
 }
 
@@ -235,13 +256,24 @@ func (d *driver) runOne(ri int, r *runSpec, kf *knownFile) error {
 	if b, _ := d.tierSize(r); b == 0 {
 		return nil
 	}
+	d.buildMu.Lock()
 	bin, err := d.buildWorkerFor(r.pkg, r.goarch, r.race, r.buildFlags...)
+	if err == nil && r.background {
+		// its own copy: a later build of the same worker must not write into a running executable
+		cp := bin + "-bg"
+		if b, rerr := os.ReadFile(bin); rerr == nil && os.WriteFile(cp, b, 0o755) == nil {
+			bin = cp
+		}
+	}
+	d.buildMu.Unlock()
 	if err != nil {
 		// A tree that does not compile is not a property verdict.
 		return err
 	}
 	if r.serverBin {
+		d.buildMu.Lock()
 		sb, err := d.buildServer()
+		d.buildMu.Unlock()
 		if err != nil {
 			return err
 		}
